@@ -3,7 +3,6 @@ package macro
 import (
 	"fmt"
 	"sort"
-	"strings"
 
 	"github.com/reeflective/readline/inputrc"
 	"github.com/reeflective/readline/internal/color"
@@ -139,7 +138,8 @@ func (e *Engine) RunMacro(key rune) {
 		return
 	}
 
-	macro = strings.ReplaceAll(macro, `\e`, "\x1b")
+	// Macros are stored in their escaped (inputrc) notation.
+	macro = inputrc.Unescape(macro)
 	e.keys.Feed(false, []rune(macro)...)
 }
 
